@@ -1,7 +1,7 @@
 PROP = dict(
     harness="c15", level="fault_enumeration", exhaustive_capable=True,
     quick=dict(cases=3200, max_size=60, workers=16, extra_args=["--instances=2"]),
-    thorough=dict(cases=160000, max_size=90, workers=16, extra_args=["--instances=24"]),
+    thorough=dict(cases=96000, max_size=90, workers=16, timeout=7200, extra_args=["--instances=16", "--lsan=8"]),
     rule=("one case = (workload, instantiation, fault plan). Workloads: W1 x86-64/AArch64 Assembler with labels, 1-3 sections, "
           "embed_label/embed_label_delta/absolute call+jmp (relocations, address table), const pool, flatten, resolve_cross_section_fixups, "
           "relocate_to_base, copy_flattened_data (also after reinit()); W2 the same programs through x86/a64 Builder + finalize; W3 x86/a64 "
